@@ -58,7 +58,7 @@ def codeResolve (b : Bool) : List (Option Trool) → Bool
   | none :: rest => codeResolve b rest
 
 theorem codeResolve_eq_rule (b : Bool) (levels : List (Option Trool))
-    (h : noShadowingAuto levels = true) : codeResolve b levels = (firstOnOff levels).getD b := by
+    (h : noShadowingAuto b levels = true) : codeResolve b levels = (firstOnOff levels).getD b := by
   induction levels with
   | nil => rfl
   | cons x rest ih =>
@@ -69,22 +69,29 @@ theorem codeResolve_eq_rule (b : Bool) (levels : List (Option Trool))
       | yes => rfl
       | no => rfl
       | maybe =>
-        simp only [codeResolve, firstOnOff, noShadowingAuto, List.all_eq_true] at h ⊢
-        -- every outer level is silent or auto, so no on/off is found
-        have : firstOnOff rest = none := by
-          clear ih
-          induction rest with
-          | nil => rfl
-          | cons y ys ihy =>
-            have hy := h y (by simp)
-            have hys := ihy (fun z hz => h z (by simp [hz]))
-            cases y with
-            | none => simpa [firstOnOff] using hys
-            | some t =>
-              cases t with
-              | yes => simp at hy
-              | no => simp at hy
-              | maybe => simpa [firstOnOff] using hys
-        simp [this]
+        simp only [noShadowingAuto, Bool.or_eq_true, beq_iff_eq] at h
+        simp only [codeResolve, firstOnOff]
+        rcases h with h | h <;> simp [h]
+
+/-- the restriction is necessary as well: where it fails, code and rule disagree -/
+theorem codeResolve_ne_rule (b : Bool) (levels : List (Option Trool))
+    (h : noShadowingAuto b levels = false) : codeResolve b levels ≠ (firstOnOff levels).getD b := by
+  induction levels with
+  | nil => simp [noShadowingAuto] at h
+  | cons x rest ih =>
+    cases x with
+    | none => simp only [codeResolve, firstOnOff]; exact ih (by simpa [noShadowingAuto] using h)
+    | some t =>
+      cases t with
+      | yes => simp [noShadowingAuto] at h
+      | no => simp [noShadowingAuto] at h
+      | maybe =>
+        simp only [noShadowingAuto, Bool.or_eq_false_iff, beq_eq_false_iff_ne, ne_eq] at h
+        simp only [codeResolve, firstOnOff]
+        cases hf : firstOnOff rest with
+        | none => exact absurd hf h.1
+        | some c =>
+          simp only [Option.getD_some]
+          intro e; apply h.2; rw [hf, e]
 
 end Flatland.C19.Proofs
